@@ -156,7 +156,9 @@ fn unique_arg(ty: &str, n: u32) -> Arg {
         // enumerator-typed bytes: values that are declared in every expansion
         "R" => Arg::B(1 + (n % 4) as u8, 1 + ((n / 4) % 4) as u8, ((n / 16) % 2) as u8, ((n / 32) % 4) as u8),
         "U" => Arg::B((n % 4) as u8, (x >> 8) as u8, (x >> 16) as u8, (x >> 24) as u8),
-        "SG" => Arg::SG((n % 19) as u8, ((x as u64) << 32) | (n as u64 + 1)),
+        // every slot value a u8 can hold comes up (slots the expansion does not declare are refused by the adapter and the
+        // operation counts as not applicable); the upper half is favoured: offsets computed in too narrow a type break there
+        "SG" => Arg::SG(if n % 3 == 0 { 100 + ((n / 3) % 156) as u8 } else { (n % 160) as u8 }, ((x as u64) << 32) | (n as u64 + 1)),
         _ => Arg::S(x as u16, (x >> 16) as u16),
     }
 }
@@ -404,7 +406,7 @@ impl Check for C13 {
                 }
                 6..=8 => {
                     let (f, t) = pickf(&mut rng);
-                    ops.push(json!({"op": "get", "f": f, "t": t, "slot": rng.below(19)}));
+                    ops.push(json!({"op": "get", "f": f, "t": t, "slot": if rng.chance(1, 2) { rng.below(19) } else { rng.below(160) }}));
                 }
                 9 => ops.push(json!({"op": "dirty_reset"})),
                 10 => ops.push(json!({"op": "mark_fully_dirty"})),
